@@ -466,7 +466,7 @@ pub fn draw_swarm(rng: &mut Rng, leap: &Leap, concurrency_bias: u64) -> Swarm {
   let policy = if threads == 1 {
     Policy::Seq
   } else {
-    match rng.below(11) {
+    match rng.below(12) {
       0 | 1 | 2 => Policy::Seq,
       3 => Policy::RoundRobin,
       4 | 5 | 6 => Policy::RandomWalk,
@@ -618,6 +618,9 @@ pub fn gen_pool(seed: u64, n: usize, leap: &Leap) -> Vec<Query> {
 
 /// Generate the script of one run.
 pub fn gen_run(rng: &mut Rng, sw: &Swarm, pool: &[Query], leap: &Leap, reset: bool, gs: &mut GenStats) -> RunScript {
+  if matches!(sw.policy, Policy::Park) && rng.chance(1, 2) {
+    return gen_lap_run(rng, sw, leap, reset);
+  }
   let mut threads: Vec<Vec<Op>> = vec![Vec::new(); sw.threads];
   let mut recent: Vec<Query> = Vec::new();
   let mut recent_tuples: Vec<Tup> = sw.focus.clone();
@@ -975,6 +978,59 @@ pub fn gen_run(rng: &mut Rng, sw: &Swarm, pool: &[Query], leap: &Leap, reset: bo
   // allocation yield points: off for sequential histories, else every n-th library allocation
   let alloc_period = if sw.threads == 1 || matches!(sw.policy, Policy::Seq) { 0 } else { *rng.pick(&[0u32, 0, 997, 211, 53, 17]) };
   RunScript { threads, policy: sw.policy.clone(), sched_seed, hash_seed, reset, fault_free: !any_fault, alloc_period }
+}
+
+/// Lap run (Policy::Park): one thread walks through 60-300 consecutive lunar months, asking each
+/// one twice in a row (first time, then straight again); the other threads ask the first few of
+/// the same months in the same order (so that they meet the walker inside the same first-time
+/// computation), get parked there by the scheduler, and wake up a long stretch later, in the
+/// middle of some other month of the walker. This is the shape in which a caller preempted
+/// between two critical sections meets a recycled slot of a bounded structure (ring, clock
+/// hand, generation counter) one or more laps later.
+fn gen_lap_run(rng: &mut Rng, sw: &Swarm, leap: &Leap, reset: bool) -> RunScript {
+  let nthreads = *rng.pick(&[2usize, 3, 4, 4, 6, 8]);
+  let len = *rng.pick(&[70usize, 100, 140, 200, 300]);
+  let shared = rng.range(3, 12) as usize;
+  let kind = match rng.below(10) {
+    0 => kind_by_name("LM.misc").unwrap(),
+    1 => kind_by_name("LD.new").unwrap(),
+    _ => K_LM_FROM_YM,
+  };
+  let mut y = year_in_era(rng, sw.era).max(1).min(9970);
+  let mut m = rng.range(1, 12);
+  let mut months: Vec<Query> = Vec::with_capacity(len);
+  while months.len() < len {
+    let lm = leap.of(y);
+    let mut a = vec![y, m];
+    if KINDS[kind].arity == 3 {
+      a.push(rng.range(1, 29));
+    }
+    months.push(Query::new(kind, a.clone()));
+    if lm == m && months.len() < len {
+      a[1] = -m;
+      months.push(Query::new(kind, a));
+    }
+    m += 1;
+    if m > 12 {
+      m = 1;
+      y += 1;
+    }
+  }
+  let mut threads: Vec<Vec<Op>> = vec![Vec::new(); nthreads];
+  for q in &months {
+    threads[0].push(Op::Q { q: q.clone(), stop: false });
+    threads[0].push(Op::Q { q: q.clone(), stop: false });
+  }
+  for t in 1..nthreads {
+    for q in months.iter().take(shared) {
+      threads[t].push(Op::Q { q: q.clone(), stop: false });
+    }
+    for _ in 0..rng.range(0, 3) {
+      threads[t].push(Op::Q { q: rng.pick(&months).clone(), stop: false });
+    }
+  }
+  // the walker is thread 0, the one the Park policy never parks
+  RunScript { threads, policy: Policy::Park, sched_seed: rng.next_u64(), hash_seed: rng.next_u64() | 1, reset, fault_free: true, alloc_period: 0 }
 }
 
 /// Stress run (Policy::Os): 2-4 threads hammer the same query kind with arguments that would
